@@ -514,3 +514,29 @@ func okBoundsCallerChecks8(p []byte) []byte {
 func uncheckedCaller(p []byte) []byte {
 	return badBoundsHead8NotAllCallersCheck(p)
 }
+
+// ---------------------------------------------------------------- parking operations
+
+func okParkNonBlockingSelect(ch chan int) bool {
+	select {
+	case ch <- 1:
+		return true
+	default:
+		return false
+	}
+}
+
+func badParkSend(ch chan int) { ch <- 1 }
+
+func badParkReceive(ch chan int) int { return <-ch }
+
+func badParkSelect(a, b chan int) int {
+	select {
+	case v := <-a:
+		return v
+	case v := <-b:
+		return v
+	}
+}
+
+func badParkWaitGroup(wg *sync.WaitGroup) { wg.Wait() }
